@@ -126,10 +126,16 @@ def expect_table(n: int, cls: str = "block", spec: str = "") -> dict[str, tuple[
     return _EXPECT[(n, cls, spec)]
 
 
-def run_image_iter(n, rep, cache, width, seekpos, ops, cls="block", spec="", src="pil") -> str:
+def run_image_iter(n, rep, cache, width, seekpos, ops, cls="block", spec="", src="pil", dyn=None) -> str:
     import zlib
+    from term_image.image import Size as ImageSize
     tab = expect_table(n, cls, spec) if n >= 2 else {}
     img = mk_image(n, width, cls, src)
+    if dyn:
+        # a DYNAMIC image size: the rendered size follows the (controlled) terminal, `width` columns wide;
+        # a `size w` operation is then a terminal resize to w columns, not a `set_size()`
+        img.size = getattr(ImageSize, dyn)
+        env.set_env(term_size=(width, 30))
     if seekpos:
         img.seek(seekpos)
     count = [0]
@@ -158,7 +164,10 @@ def run_image_iter(n, rep, cache, width, seekpos, ops, cls="block", spec="", src
                 it.seek(op[1])
                 res = "ok"
             elif op[0] == "size":
-                img.set_size(width=op[1])
+                if dyn:
+                    env.set_env(term_size=(op[1], 30))
+                else:
+                    img.set_size(width=op[1])
                 res = "ok"
             else:
                 it.close()
@@ -414,13 +423,25 @@ class C09(Property):
             else:
                 ops = [["next"]] * (n + rng.choice([1, 2])) + [["size", rng.choice([w for w in WIDTHS if w != width])]] \
                     + [["next"]] * rng.choice([2, 3, n + 1])
+        dyn = None
+        if not malformed and n >= 2 and rng.random() < 0.25:
+            # dynamic image size (no set_size): the terminal is resized between loops and frames are revisited;
+            # the spec asks for no padding ("1.1") so a frame's bytes depend on its rendered size only
+            dyn = rng.choice(["FIT", "FIT_TO_WIDTH"] + (["AUTO"] if cls == "block" else []))
+            spec = "1.1" if cls == "block" else rng.choice(["1.1", "1.1+W", "1.1+L"])
+            rep = rng.choice([2, 3, -1, -1])
+            cache = rng.choice([["b", 1], ["n", n], ["n", 100], ["b", 0]])
+            ops = [["next"]] * (n + rng.choice([0, 1, 2]))
+            for _ in range(rng.choice([1, 2, 3])):
+                ops += [["size", rng.choice(WIDTHS)]] + ([["seek", rng.randrange(n)]] if rng.random() < 0.3 else []) \
+                    + [["next"]] * rng.choice([1, n, n + 1])
         line = f"ipair {n} {rep} {toks(cache)} {width} {seekpos} {len(ops)}" + "".join(" " + toks(o) for o in ops)
         d = {"n": n, "rep": rep, "cache": cache, "width": width, "seekpos": seekpos, "ops": ops, "cls": cls, "spec": spec,
-             "src": src}
+             "src": src, "dyn": dyn}
         nexts = sum(1 for o in ops if o[0] == "next")
         kind = "ipair-malformed" if malformed else ("ipair" if cls == "block" else
                                                      f"ipair-{cls}" + ("+style" if "+" in spec else "")) + \
-            ("+file" if src == "file" else "")
+            ("+file" if src == "file" else "") + ("+dynamic" if dyn else "")
         return Case(line, d, kind, nexts > n and rep != 1)
 
     def gen_hashy(self, rng, tier):
@@ -521,8 +542,9 @@ class C09(Property):
         if op == "ipair":
             cls, spec = d.get("cls", "block"), d.get("spec", "")
             src = d.get("src", "pil")
-            a = run_image_iter(d["n"], d["rep"], d["cache"], d["width"], d["seekpos"], d["ops"], cls, spec, src)
-            b = run_image_iter(d["n"], d["rep"], ["b", 0], d["width"], d["seekpos"], d["ops"], cls, spec, src)
+            dyn = d.get("dyn")
+            a = run_image_iter(d["n"], d["rep"], d["cache"], d["width"], d["seekpos"], d["ops"], cls, spec, src, dyn)
+            b = run_image_iter(d["n"], d["rep"], ["b", 0], d["width"], d["seekpos"], d["ops"], cls, spec, src, dyn)
             return a + " || " + b
         if op == "draw":
             return run_draw_real(d["n"], d["loops"], d["cache"], d["m"])[0]
@@ -593,7 +615,8 @@ class C09(Property):
                 opn = d["ops"][i][0] if i < len(d["ops"]) else "?"
                 return Failure(f"image-iterator/cached-differs/{opn}",
                                f"ImageIterator({CLASSES[d.get('cls', 'block')].__name__}"
-                               f"{'.from_file' if d.get('src') == 'file' else ''}, repeat={d['rep']}, "
+                               f"{'.from_file' if d.get('src') == 'file' else ''}"
+                               f"{', size=Size.' + d['dyn'] + ' (`size w` = terminal resized to w columns)' if d.get('dyn') else ''}, repeat={d['rep']}, "
                                f"format_spec={d.get('spec', '')!r}) cached={toks(d['cache'])} vs uncached differ at op #{i} {opn}: "
                                f"`{fa[i] if i < len(fa) else None}` vs `{fb[i] if i < len(fb) else None}`")
             return None
